@@ -1,6 +1,7 @@
 (* C16 - Shell commands are delimited and de-escaped by cmd.exe rules.  Statements pinned from Proofs/CaretsProofs.v and Proofs/ShellProofs.v by harness/mkprop.py.  Known finding F6 (the no-context PowerShell branch ends at len(data) - start) is kept in the model as coded; ps_end_ge_start_except_no_context proves it is the ONLY branch that can misplace the end. *)
 From MD Require Import Lib.Base Model.Node Model.Dec.Carets Model.Dec.ReLib Model.Dec.Shell.
 From MD Require Import Proofs.CaretsProofs Proofs.ShellProofs.
+From MD Require Import Regex.Syntax Generated.Regexes Proofs.Shapes1.
 
 (* the index loop of strip_carets (as written, with getitem that can raise) equals the cmd.exe specification cmd_unescape on EVERY byte string: never raises, never hangs *)
 Theorem C16_carets : forall cmd : bytes, strip_carets_impl cmd = Ok (cmd_unescape cmd).
@@ -63,6 +64,25 @@ Print Assumptions C16_enc_total.
 Theorem C16_ps_total : forall (data : bytes) (ms : list Backtrack.mtch), ps_bounds_ok data ms -> forall e : label, find_powershell_strings_post data ms <> Raise e.
 Proof. exact find_powershell_strings_post_total. Qed.
 Print Assumptions C16_ps_total.
+
+(* END TO END: what CMD_RE (regenerated from the source) can match starts with a byte that is not white-space, caret or ')' *)
+Theorem C16_cmd_regex_shape : forall w : list N, Lang RE_shell_CMD_RE w -> cmd_shape w.
+Proof. exact cmd_lang_shape. Qed.
+Print Assumptions C16_cmd_regex_shape.
+
+(* find_cmd_strings on EVERY input: never raises; nodes in bounds with start < end *)
+Theorem C16_cmd_never_raises : forall data : bytes, find_cmd_strings data = Hang \/ (exists nodes : list node, find_cmd_strings data = Ok nodes /\ Forall (cmd_node_ok data) nodes /\ (exists ms : list Backtrack.mtch, fi RE_shell_CMD_RE NG_shell_CMD_RE data = Ok ms /\ Forall (cmd_match_ok data) ms /\ Forall2 (cmd_node_of data) ms nodes)).
+Proof. exact find_cmd_strings_never_raises. Qed.
+Print Assumptions C16_cmd_never_raises.
+
+Theorem C16_ps_lookback_shape : forall w : list N, Lang RE_shell_find_powershell_strings_0 w -> bound_ok w.
+Proof. exact ps_lookback_lang_shape. Qed.
+Print Assumptions C16_ps_lookback_shape.
+
+(* find_powershell_strings on EVERY input never raises *)
+Theorem C16_ps_never_raises : forall data : bytes, find_powershell_strings data = Hang \/ (exists nodes : list node, find_powershell_strings data = Ok nodes).
+Proof. exact find_powershell_strings_never_raises. Qed.
+Print Assumptions C16_ps_never_raises.
 
 Example C16_example :
   strip_carets_impl (L"m^sh^ta ^^ ""a^b"" x^") = Ok (L"mshta ^ ""a^b"" x")
